@@ -66,3 +66,60 @@ Definition wf_template (t : bytes) : bool := rooted_normal t.
 (* outcome 4 of exercising an operation: answered 404 or 405, the router holds no route for the declared operation *)
 Definition all_routed (n : nat) (routed : list (nat * bool)) : bool :=
   list_eqb Nat.eqb (map fst routed) (seq 0 n) && forallb snd routed.
+
+(* ---- histories: state must not be carried from one call to the next ---- *)
+Definition failure_eqb (a b : failure) : bool :=
+  Nat.eqb (f_section a) (f_section b) && list_eqb bytes_eqb (f_unspecified a) (f_unspecified b) &&
+  list_eqb bytes_eqb (f_unregistered a) (f_unregistered b).
+
+(* later batches of registrations on one API value, each followed by Validate(): the answer on that value, and the
+   answer of a fresh value given every registration made so far. Both must be the same, and must be what the
+   property demands of the registrations as they then stand. *)
+Fixpoint history_ok (a : api) (d : desc) (more : list (list reg * option failure * option failure)) : bool :=
+  match more with
+  | [] => true
+  | (s, shared, fresh) :: r =>
+    let a' := fold_left apply_reg s a in
+    opt_eqb failure_eqb shared fresh && validate_prop a' d shared && history_ok a' d r
+  end.
+
+(* ---- well-formed requests ----
+   credentials cover one alternative requirement (or none is stated, or anonymous access is allowed);
+   a body, if any, has a media type the route admits, in any letter case, with or without parameters;
+   the Accept header is absent, or acceptable against what the route produces *)
+Definition creds_cover (alts : list (list bytes)) (creds : list bytes) : bool :=
+  is_nil alts || existsb (fun alt => forallb (fun s => mem_bytes s creds) alt) alts.
+Definition accept_ok (produces : list bytes) (lines : list bytes) : bool :=
+  match parse_accept lines with
+  | None => false
+  | Some [] => true
+  | Some specs => is_nil produces || negb (is_nil (negotiate_content_type specs produces []))
+  end.
+Definition wf_request (a : api) (d : desc) (o : opdesc) (rq : request) : bool :=
+  creds_cover (effective_security d o) (rq_creds rq) &&
+  (is_nil (rq_ct rq) || mem_bytes (media_type_of (rq_ct rq)) (map normalize_offer (route_consumes_of a d o))) &&
+  accept_ok (rt_produces (route_of a d o)) (rq_accept rq).
+
+(* the answer a well-formed request deserves: the handler ran, the response is in a format the route produces, written
+   by the producer of that format *)
+Definition response_ok (a : api) (d : desc) (o : opdesc) (rs : result) : bool :=
+  Nat.eqb (rs_outcome rs) 0 && mem_bytes (rs_ctype rs) (rt_produces (route_of a d o)) &&
+  bytes_eqb (rs_producer rs) (normalize_offer (rs_ctype rs)).
+
+Definition result_eqb (x y : result) : bool :=
+  Nat.eqb (rs_outcome x) (rs_outcome y) && bytes_eqb (rs_ctype x) (rs_ctype y) && bytes_eqb (rs_producer x) (rs_producer y).
+
+(* one entry of a request history: the request, its result on the shared handler, its result on a fresh handler *)
+Definition entry_ok (a : api) (d : desc) (e : request * result * result) : bool :=
+  let '(rq, shared, fresh) := e in
+  result_eqb shared fresh &&
+  match nth_error (g_ops d) (rq_op rq) with
+  | None => false
+  | Some o => negb (wf_request a d o rq) || response_ok a d o shared
+  end.
+(* every declared operation received at least one well-formed request *)
+Definition covers_ops (a : api) (d : desc) (served : list (request * result * result)) : bool :=
+  forallb (fun i => existsb (fun e => let rq := fst (fst e) in
+                                      Nat.eqb (rq_op rq) i &&
+                                      match nth_error (g_ops d) i with Some o => wf_request a d o rq | None => false end) served)
+          (seq 0 (length (g_ops d))).
